@@ -334,21 +334,7 @@ def run(ctx):
     r = ctx.rule("R04.5", "void / self-closing: HTML elements are popped immediately iff void, foreign elements are pushed iff not self-closing", "E-AST", floor=3)
     from .c16 import clause_void_list
     clause_void_list(r, idx)
-    gsd = idx.one("get_stack_directive", owner="Stack")
-    s_ = (str([n.get("s") for n in walk(gsd.node["body"]) if n.get("k") == "If"])).replace(" ", "")
-    ifs = [n for n in walk(gsd.node["body"]) if n.get("k") == "If"]
-    r.inst("directive-table")
-    ok = False
-    if len(ifs) == 2:
-        outer, inner = ifs[0], ifs[1]
-        oc = (outer["cond"].get("s") or "").replace(" ", "")
-        ic = (inner["cond"].get("s") or "").replace(" ", "")
-        ot = (outer["else"]["body"][0]["e"].get("s") or "").replace(" ", "") if outer.get("else") else ""
-        it_ = (inner["then"][0]["e"].get("s") or "").replace(" ", "")
-        ie = (inner["else"]["body"][0]["e"].get("s") or "").replace(" ", "") if inner.get("else") else ""
-        ok = oc == "ns==Namespace::Html" and ic.startswith("is_void_element(") and it_ == "StackDirective::PopImmediately" and ie == "StackDirective::Push" and ot == "StackDirective::PushIfNotSelfClosing"
-    if not ok:
-        r.violate("directive-table", "get_stack_directive no longer implements Html -> (void ? PopImmediately : Push), foreign -> PushIfNotSelfClosing", "src/selectors_vm/stack.rs")
+    clause_stack_directive(r, idx)
     ex_src = idx.one("exec_for_start_tag", owner="SelectorMatchingVm")
     arms = {}
     for n in walk(ex_src.node["body"]):
@@ -406,3 +392,29 @@ def rule_pipeline(ctx, mir, rid="R04.6"):
             if not ew.dominates(tb, bb):
                 r.violate("exec_without_attrs|pairing", "a bail-out is not paired with the stage that produced it", ew.loc())
 
+
+
+def clause_stack_directive(r, idx):
+    gsd = idx.one("get_stack_directive", owner="Stack")
+    # complete decision table (namespace x tag) -> directive by finite-domain abstract interpretation
+    from ..tagsem import Interp, tag_variants, OTHER, Sym
+    import importlib.util, os
+    from ..facts import VERIF
+    sp_ = importlib.util.spec_from_file_location("html_tables", os.path.join(VERIF, "spec", "html_tables.py"))
+    T_ = importlib.util.module_from_spec(sp_); sp_.loader.exec_module(T_)
+    voids_ref = T_.VOID_ELEMENTS | T_.VOID_OBSOLETE
+    itp = Interp(idx, tag_param="local_name")
+    params = [p_["pat"].get("name") for p_ in gsd.node["sig"]["inputs"] if not p_.get("self")]
+    for ns in ("Namespace::Html", "Namespace::Svg", "Namespace::MathML"):
+        for t in [OTHER] + tag_variants(idx):
+            try:
+                v = itp.call_fn(gsd, [Sym("item"), ns, False][:len(params)], self_env={params[0] + ".local_name": t})
+            except EngineError as e:
+                raise EngineError("R04.5: " + str(e))
+            got = str(v).split("::")[-1]
+            name = t.lower() if t != OTHER else None
+            want = ("PopImmediately" if name in voids_ref else "Push") if ns == "Namespace::Html" else "PushIfNotSelfClosing"
+            key = "directive|%s|%s" % (ns.split("::")[-1], t)
+            r.inst(key, nontrivial=(want != "Push"))
+            if got != want:
+                r.violate(key, f"get_stack_directive gives {got} for <{name or 'other'}> in the {ns.split('::')[-1]} namespace, expected {want}: " + ("an HTML void element name used in SVG/MathML is an ordinary element there (it has content unless self-closed), so can_have_content(), end-tag handlers and child matching would be wrong" if ns != "Namespace::Html" else "void elements have no content and no end tag; every other HTML element is pushed"), "src/selectors_vm/stack.rs")
